@@ -472,6 +472,54 @@ def flags(chk, rid):
          'another textual pattern is expanded inside compiled SQL', fi=u.fi)
 
 
+def scanner_literal_agreement(chk, rid):
+  """The scanner treats backslash as an escape inside exactly those quote
+  kinds whose contents ParseString decodes with escapes; the other kinds are
+  raw in both.  A disagreement makes a literal end at different places for
+  the scanner and for the literal parser."""
+  repo = chk.repo
+  tv = FnView(repo, 'parse.Traverse')
+  escaping_states = set()
+  for n in tv.cfg.stmt_nodes():
+    st = tv.cfg.stmt[n]
+    if isinstance(st, ast.AugAssign) and dotted(st.target) == 'state' and \
+        const_str(st.value) == '\\':
+      for e, val in tv.guards(n):
+        if val and isinstance(e, ast.Compare) and norm(e.left) == 'State()':
+          c0 = e.comparators[0]
+          if isinstance(e.ops[0], ast.Eq) and const_str(c0) is not None:
+            escaping_states.add(const_str(c0))
+          elif isinstance(e.ops[0], ast.In):
+            try:
+              escaping_states |= set(tables.const_value(c0))
+            except AnalysisError:
+              pass
+  ps = FnView(repo, 'parse.ParseString')
+  decoding_quotes = set()
+  raw_quotes = set()
+  for n, r in ps.returns():
+    if r.value is None:
+      continue
+    quotes = set()
+    for e, val in ps.guards(n):
+      if val and isinstance(e, ast.Compare) and isinstance(e.ops[0], ast.Eq) and \
+          norm(e.left) in ('s[0]', 's[:3]') and const_str(e.comparators[0]):
+        quotes.add(const_str(e.comparators[0]))
+    decodes = any(isinstance(c, ast.Call) and call_tail(c) == 'literal_eval'
+                  for c in ast.walk(r.value))
+    (decoding_quotes if decodes else raw_quotes).update(quotes)
+  if not decoding_quotes or not raw_quotes:
+    raise AnalysisError('ParseString: literal forms not recognised (%s / %s)' % (
+        decoding_quotes, raw_quotes))
+  chk.ob(rid, escaping_states == decoding_quotes, None,
+         'scanner screens backslash exactly in the quote kinds ParseString decodes (%s)'
+         % ' '.join(sorted(decoding_quotes)),
+         'Traverse treats backslash as an escape inside %s, ParseString decodes '
+         'escapes inside %s: a raw literal ending in a backslash (or an escaped '
+         'quote) ends at different places for the two' % (
+             sorted(escaping_states), sorted(decoding_quotes)), fi=tv.fi)
+
+
 def run(chk):
   chk.assume('A3: the lexical rules of the eight dialects in sa/sqllex.py are correct '
              '(standard SQL quotes for SQLite/PostgreSQL/Presto/Trino, additionally '
@@ -499,3 +547,6 @@ def run(chk):
            '${flag} expansion is bounded and the only expanded form',
            min_instances=6)
   flags(chk, 'C10-R4')
+  chk.rule('C10-R5', 'literal forms: the scanner and ParseString agree on '
+           'which quote kinds interpret backslash escapes', min_instances=1)
+  scanner_literal_agreement(chk, 'C10-R5')
